@@ -156,13 +156,22 @@ class Sign(Engine):
                 m = rng.randint(1, nk)
                 nin = rng.randint(1, 4)
                 nout = rng.randint(0, 3)
+                big = rng.random() < 0.04
+                if big:
+                    # a consolidation: hundreds of inputs, the signed one far down the list (beyond 255/256)
+                    nin = rng.choice([257, 258, 300])
                 tx = gen.gen_tx(rng, 1, 1)
                 tx['vin'] = [gen.gen_txin(rng) for _ in range(nin)]
                 seen = set()
                 for x in tx['vin']:
                     x['script'] = gen.rhex(rng, rng.randint(0, 6))
                 nout = rng.randint(0, 3) if rng.random() < 0.8 else rng.randint(4, 6)
+                if big:
+                    nout = rng.choice([0, 1, nin, nin])
                 tx['vout'] = [gen.gen_txout(rng) for _ in range(nout)]
+                if big:
+                    for o in tx['vout']:
+                        o['script'] = o['script'][:8]
                 if nout >= 2 and rng.random() < 0.3:
                     # the same payment twice (or three times): byte-identical outputs at different positions,
                     # and inputs that differ only in their outpoint index
@@ -175,7 +184,8 @@ class Sign(Engine):
                         x['seq'] = tx['vin'][0]['seq']
                 tx['wit'] = None
                 ht = rng.choice([1, 2, 3, 0x81, 0x82, 0x83]) if rng.random() < 0.75 else (rng.choice([0, 4, 0x7f, 0xff, 0x80, 0x1f, 0x41, 0x9f, 0x84, 0x20, 0xe3, 0x22, 0x23, 0x42, 0x63, 0xa2, 0xc3]) if rng.random() < 0.5 else rng.randrange(256))
-                S({'op': 'spend', 'template': tmpl, 'keys': [rng.randrange(16) for _ in range(nk)], 'm': m, 'tx': tx, 'input': rng.randrange(nin),
+                S({'op': 'spend', 'template': tmpl, 'keys': [rng.randrange(16) for _ in range(nk)], 'm': m, 'tx': tx,
+                   'input': rng.randrange(nin) if not big else rng.choice([nin - 1, 256, 257, nin - 2]),
                    'hashtype': ht, 'mixed_ht': [rng.choice([1, 2, 3, 0x81, 0x82, 0x83]) for _ in range(3)] if rng.random() < 0.15 else None,
                    'nonces': ['%064x' % self.gen_nonce(rng) for _ in range(8)], 'mutable': rng.random() < 0.5,
                    'edit_seed': [gen.gen_txin(rng), gen.gen_txout(rng), rng.randrange(1 << 16), rng.randrange(1 << 16)],
@@ -580,6 +590,24 @@ class Sign(Engine):
             ctx.check(False, 'C14.digest', 'BitcoinMessage(%r) raised %s' % (text[:20], type(e).__name__))
             return
         tb = text.encode('utf-8')
+        # text that has no UTF-8 encoding at all (lone surrogates, as PEP 383 decoding of undecodable bytes
+        # leaves them): the digest is defined over the UTF-8 message, so such text can only be refused -
+        # in particular the "smuggled twin" of this very text, which carries each non-ASCII byte as U+DC00+byte
+        twin = ''.join(chr(b) if b < 0x80 else chr(0xdc00 + b) for b in tb)
+        for bad in ([twin] if twin != text else []) + ['\udce9', 'a\ud800b'][:1 + a['perturb'] % 2]:
+            try:
+                m2 = SM.BitcoinMessage(bad)
+                d2 = m2.GetHash()
+            except UnicodeError:
+                ctx.probe('unencodable-text-refused')
+                continue
+            except Exception as e:
+                ctx.check(False, 'C14.digest', 'BitcoinMessage of text with a lone surrogate raised %s' % type(e).__name__)
+                continue
+            ctx.check(False, 'C14.digest' if bad != twin else 'C14.reject-other-msg',
+                      'text that has no UTF-8 encoding (lone surrogates) was accepted as a message%s'
+                      % (' and has the SAME digest as the genuine text it imitates' if d2 == digest else ''), same=(d2 == digest))
+        ctx.fault('unencodable-text')
         want_digest = RW.dsha(RW.varbytes(b'Bitcoin Signed Message:\n') + RW.varbytes(tb))
         ctx.carry()
         ctx.check(digest == want_digest, 'C14.digest', 'message digest is not dSHA256(varstr(magic) || varstr(utf-8 message)) for a %d-byte message' % len(tb), mlen=len(tb))
@@ -838,13 +866,16 @@ class Sign(Engine):
             t2 = copy.deepcopy(tx)
             fn(t2)
             edits.append((name, t2))
-        for i in range(len(tx['vin'])):
+        nvin, nvout = len(tx['vin']), len(tx['vout'])
+        in_sel = range(nvin) if nvin <= 8 else sorted({0, 1, 255, 256, 257, idx - 1, idx, idx + 1, nvin - 1} & set(range(nvin)))
+        out_sel = range(nvout) if nvout <= 8 else sorted({0, 1, 255, 256, 257, idx - 1, idx, idx + 1, nvout - 1} & set(range(nvout)))
+        for i in in_sel:
             E('in%d.prevout.hash' % i, lambda t, i=i: t['vin'][i].__setitem__('hash', '%064x' % (int(t['vin'][i]['hash'], 16) ^ 1)))
             E('in%d.prevout.n' % i, lambda t, i=i: t['vin'][i].__setitem__('n', t['vin'][i]['n'] ^ 0x100))
             E('in%d.sequence' % i, lambda t, i=i: t['vin'][i].__setitem__('seq', t['vin'][i]['seq'] ^ 1))
             if i != idx:
                 E('in%d.scriptSig' % i, lambda t, i=i: t['vin'][i].__setitem__('script', t['vin'][i]['script'] + '51'))
-        for j in range(len(tx['vout'])):
+        for j in out_sel:
             E('out%d.value' % j, lambda t, j=j: t['vout'][j].__setitem__('value', t['vout'][j]['value'] ^ 1))
             E('out%d.script' % j, lambda t, j=j: t['vout'][j].__setitem__('script', t['vout'][j]['script'] + '00'))
         E('version', lambda t: t.__setitem__('version', t['version'] ^ 1))
